@@ -12,7 +12,7 @@
 //	s <id> <fg> <bg> <ul> <ulstyle> <attr> <linkhex|-> <paramshex|->     style table (0 = Style{})
 //	d <kind> <chain|-> <args|-> <ann|->                                   one drawing call
 //	   kind: setcell c,r,g,w,st | setstyle c,r,st | fill g,w,st | clear | print | println row |
-//	         trunc row | wrap | showcursor c,r,style | hidecursor
+//	         trunc row | wrap | showcursor c,r,style | hidecursor | mouseshape (shape in hex in the ann field)
 //	   chain: root first, '/'-separated: Rc,r,w,h (struct literal or vx.Window()), Nc,r,w,h (New), Dc,r,w,h (literal child)
 //	   ann: segments '|'-separated: st;lineseg/lineseg…, lineseg = g.uw.tab,…   (as in the C11 stream)
 //	render | refresh            \t <bytes hex> <grid>     grid: rows '/', cells ',' each g.w.st ('-' = no rows)
@@ -52,6 +52,7 @@ type dop struct {
 	chain []step
 	args  []int
 	segs  []seg
+	shape string // mouseshape only (recorded, in hex, in the ann field)
 }
 
 type session struct {
@@ -265,10 +266,17 @@ func buildWindows(vx *vaxis.Vaxis, ch []step) []*vaxis.Window {
 // do records one drawing call and performs it on the real Vaxis.
 func (s *session) do(d dop) {
 	ann := s.annotate(d.kind, d.segs)
+	if d.kind == "mouseshape" {
+		ann = hexOr(d.shape)
+	}
 	s.r.Emit(fmt.Sprintf("d %s %s %s %s", d.kind, chainStr(d.chain), ints(d.args), ann), "-")
 	s.r.Count("op-" + d.kind)
 	if d.kind == "hidecursor" {
 		s.vx.HideCursor()
+		return
+	}
+	if d.kind == "mouseshape" {
+		s.vx.SetMouseShape(vaxis.MouseShape(d.shape))
 		return
 	}
 	wins := buildWindows(s.vx, d.chain)
@@ -496,7 +504,11 @@ func (s *session) drawOps(n int, styles []vaxis.Style) {
 		case 13, 14:
 			s.showCursorInScreen(ch)
 		case 15:
-			s.do(dop{kind: "hidecursor"})
+			if s.rng.Chance(1, 3) {
+				s.do(dop{kind: "mouseshape", shape: gen.Pick(s.rng, []string{"default", "text", "pointer", ""})})
+			} else {
+				s.do(dop{kind: "hidecursor"})
+			}
 		}
 	}
 }
@@ -651,6 +663,8 @@ func replay(r *hx.Run, rng *gen.Rng, id string, ops []string) error {
 					UnderlineColor: vaxis.Color(atoi(f[4])), UnderlineStyle: vaxis.UnderlineStyle(atoi(f[5])),
 					Attribute: vaxis.AttributeMask(atoi(f[6])), Hyperlink: unhex(f[7]), HyperlinkParams: unhex(f[8])})
 			}
+		case f[0] == "d" && len(f) == 5 && f[1] == "mouseshape":
+			s.do(dop{kind: "mouseshape", shape: unhex(f[4])})
 		case f[0] == "d" && len(f) == 5:
 			s.do(dop{kind: f[1], chain: parseChain(f[2]), args: parseInts(f[3]), segs: s.parseSegs(f[4])})
 		case f[0] == "render":
